@@ -51,7 +51,7 @@ HoldOK(e) == T.strategy = "globalCount" \/ T.type # "mif" \/ (e.got = e.want /\ 
 Switch == Ev.k \in {"ready", "reply", "replyerr", "replybad"}
 Accept == IF Ev.k = "hold" THEN HoldOK(Ev) ELSE Ev.k = "measure" => IF T.strategy = "globalCount" THEN (IF T.type = "mif" THEN GcMifOK(Ev) ELSE GcTbOK(Ev))
                               ELSE IF T.type = "mif" THEN MifOK(Ev) ELSE TbOK(Ev)
-Next == /\ l <= Len(T.events) /\ Accept /\ l' = l + 1 /\ tr' = tr
+Next == /\ l <= Len(T.events) /\ (Accept = TRUE) /\ l' = l + 1 /\ tr' = tr
         /\ ready' = IF Ev.k = "ready" THEN Ev.v ELSE ready
         /\ glob' = IF Ev.k = "global" THEN Ev.q ELSE glob
         /\ hp' = IF Ev.k = "unhold" THEN 0 ELSE IF Switch THEN hp + hc ELSE hp
